@@ -158,6 +158,38 @@ func addStrings(m map[string]Intrinsic) {
 		return mkIte(lt, mkBV(64, ^uint64(0)), mkIte(eq, mkBV(64, 0), mkBV(64, 1)))
 	}
 	m["internal/stringslite.Clone"] = func(vm *VM, fn *ssa.Function, args []Value) Value { return args[0] }
+	// strings.ToLower / ToUpper on symbolic bytes: when every byte is ASCII the result is the
+	// per-byte case mapping (exactly what the real function computes on its ASCII fast path);
+	// otherwise the real body is interpreted.  One branch instead of a fork per byte.
+	caseMap := func(lower bool) Intrinsic {
+		return func(vm *VM, fn *ssa.Function, args []Value) Value {
+			s, ok := args[0].(StrV)
+			if !ok || !s.Sym || s.Opaque() {
+				return vm.callBody(fn, args)
+			}
+			bs := s.Bytes()
+			var ascii []*Term
+			for _, b := range bs {
+				ascii = append(ascii, mkBVCmp("bvult", b, mkBV(8, 0x80)))
+			}
+			if !vm.branch(mkAndN(ascii...)) {
+				return vm.callBody(fn, args)
+			}
+			out := make([]*Term, len(bs))
+			for i, b := range bs {
+				if lower {
+					isUp := mkAnd(mkBVCmp("bvuge", b, mkBV(8, 'A')), mkBVCmp("bvule", b, mkBV(8, 'Z')))
+					out[i] = mkIte(isUp, mkBVBin("bvadd", b, mkBV(8, 32)), b)
+				} else {
+					isLo := mkAnd(mkBVCmp("bvuge", b, mkBV(8, 'a')), mkBVCmp("bvule", b, mkBV(8, 'z')))
+					out[i] = mkIte(isLo, mkBVBin("bvsub", b, mkBV(8, 32)), b)
+				}
+			}
+			return StrV{B: out, Sym: true}
+		}
+	}
+	m["strings.ToLower"] = caseMap(true)
+	m["strings.ToUpper"] = caseMap(false)
 	m["strings.Clone"] = func(vm *VM, fn *ssa.Function, args []Value) Value { return args[0] }
 	m["strings.Join"] = func(vm *VM, fn *ssa.Function, args []Value) Value {
 		var out StrV
